@@ -13,9 +13,11 @@ MAP = {"RK4Iterator evaluates": "C06", "TemperatureParameters constructor": "C13
        "site-type limit is rejected": "C14", "reaches the precipitates also after": "C14",
        "discards the composition sets cached by the previous method": "C09", "only reused for the same local sampling conditions": "C09",
        "does not fall back to an earlier query": "C09",
+       "stored with the cached precipitate samples are a copy": "C09",
        "carry the J factor like their edge and screw forms": "C18", "finds the file saveRecordedPSD wrote": "C20",
        "before the matrix stiffness keeps the chosen precipitate shape": "C16", "is rotated from the value the user supplied": "C16", "also applies to cooling": "C13", "a loaded diffusion model continues from the loaded state": "C20", "keeps the size class settings of the model it is loaded into": "C20", "finds the file StrengthModel.save wrote": "C20",
-       "is the limit of its formula": "C15", "does not rename the first entry of the caller's list of phases": "C11", "trained with integer temperatures can be written to JSON": "C20", "works with its default diffusivity_correction": "C10"}
+       "is the limit of its formula": "C15", "does not rename the first entry of the caller's list of phases": "C11", "trained with integer temperatures can be written to JSON": "C20", "works with its default diffusivity_correction": "C10",
+       "gives no nucleation instead of NaN": "C14", "first nucleation rate with the equilibrium compositions of the first record": "C14"}
 log = subprocess.run("git -C /repo log --format='%h %s' --grep='^fix:'", shell=True, capture_output=True, text=True).stdout.strip().splitlines()
 todo = []
 for l in log:
